@@ -525,16 +525,42 @@ func c05JSON(v c05GV) string {
 	return c05Lit(v, "")
 }
 
+// Renderings in which a NULL operand is supplied as the value of reading a
+// numeric member that does not exist (index past the end of an array, absent
+// numeric key of an object), with a non-zero index: the interpreter keeps the
+// index inside such a null ("speculative" member), which must not leak into
+// num() / str() / truthiness.  (That the read pads the array is C09's business
+// and does not show in the operator's result.)
+var c05MissModes = []string{"miss:docarr", "miss:vararr", "miss:obj", "miss:docobj"}
+
+func c05IsMiss(mode string) bool { return strings.HasPrefix(mode, "miss:") }
+
 // c05Operand renders one operand for a mode: the reference used inside the
-// expression, the statement that must run first, and the document field.
+// expression, the statement that must run first, and the member of the input
+// document it needs (`"name": value`).
 func c05Operand(v c05GV, side, mode string) (ref, pre, field string) {
 	assignable := v.Kind != "unset" && v.Kind != "fn"
-	switch mode {
-	case "lit":
+	idx := map[string]string{"a": "5", "b": "7"}[side]
+	if idx == "" {
+		idx = "4"
+	}
+	switch {
+	case mode == "lit":
 		return c05Lit(v, side), "", ""
-	case "doc":
+	case mode == "doc":
 		if c05JSONKind(v) {
-			return "$." + side, "", c05JSON(v)
+			return "$." + side, "", `"` + side + `": ` + c05JSON(v)
+		}
+	case c05IsMiss(mode) && v.Kind == "null":
+		switch mode {
+		case "miss:docarr":
+			return "$.m" + side + "[" + idx + "]", "", `"m` + side + `": [10, 20]`
+		case "miss:vararr":
+			return "m" + side + "[" + idx + "]", "m" + side + " = [10, 20]; ", ""
+		case "miss:obj":
+			return "o" + side + "[3]", "o" + side + " = {k: 1}; ", ""
+		case "miss:docobj":
+			return "$.o" + side + "[" + idx + "]", "", `"o` + side + `": {"k": 1}`
 		}
 	}
 	if !assignable {
@@ -577,10 +603,10 @@ func c05UsesFn(vs ...c05GV) string {
 func c05DocText(fa, fb string) string {
 	parts := []string{}
 	if fa != "" {
-		parts = append(parts, `"a": `+fa)
+		parts = append(parts, fa)
 	}
 	if fb != "" {
-		parts = append(parts, `"b": `+fb)
+		parts = append(parts, fb)
 	}
 	return "{" + strings.Join(parts, ", ") + "}"
 }
@@ -589,16 +615,23 @@ func c05DocText(fa, fb string) string {
 // when the mode does not apply (e.g. document mode without a JSON operand).
 func c05BinProg(op string, l, r c05GV, mode string) (prog, doc, marks string, ok bool) {
 	fn := c05UsesFn(l, r)
+	origMode := mode
+	if c05IsMiss(mode) {
+		if l.Kind != "null" && r.Kind != "null" {
+			return "", "", "", false
+		}
+		mode = "miss"
+	}
 	switch mode {
-	case "lit", "var", "doc":
-		la, lp, lf := c05Operand(l, "a", mode)
-		ra, rp, rf := c05Operand(r, "b", mode)
+	case "lit", "var", "doc", "miss":
+		la, lp, lf := c05Operand(l, "a", origMode)
+		ra, rp, rf := c05Operand(r, "b", origMode)
 		expr := "print " + la + " " + op + " " + ra
-		if mode == "doc" {
-			if lf == "" && rf == "" {
-				return "", "", "", false
-			}
+		if lf != "" || rf != "" {
 			return fn + "{ " + lp + rp + expr + " }", c05DocText(lf, rf), "", true
+		}
+		if mode == "doc" {
+			return "", "", "", false
 		}
 		return fn + "BEGIN { " + lp + rp + expr + " }", "", "", true
 	case "same":
@@ -881,6 +914,9 @@ func checkC05(c *Ctx) {
 
 	// ---- (1) every cell of the model
 	portChecked := 0
+	siteCells := map[string]c05Out{} // "op li ri" -> outcome of the ~ / !~ cell
+	siteVals := map[int]c05GV{}
+	siteLeftMax := 0
 	onVec := func(raw []byte) {
 		var v c05Vec
 		VecDecode(raw, &v)
@@ -904,6 +940,16 @@ func checkC05(c *Ctx) {
 			if v.Li == v.Ri {
 				modes = append(modes, "same")
 			}
+			if l.Kind == "null" || r.Kind == "null" {
+				modes = append(modes, c05MissModes...)
+			}
+			if v.Fam == "match" {
+				siteCells[fmt.Sprintf("%s %d %d", v.Op, v.Li, v.Ri)] = exp
+				siteVals[v.Li], siteVals[v.Ri] = l, r
+				if v.Li > siteLeftMax {
+					siteLeftMax = v.Li
+				}
+			}
 			for _, mode := range modes {
 				prog, doc, marks, ok := c05BinProg(v.Op, l, r, mode)
 				if !ok {
@@ -919,14 +965,14 @@ func checkC05(c *Ctx) {
 				infra("C05: Go port disagrees with the specification at %s %s", v.Op, c05Lit(l, "a"))
 			}
 			portChecked++
-			for _, mode := range []string{"lit", "var", "doc"} {
+			for _, mode := range append([]string{"lit", "var", "doc"}, c05MissModes...) {
 				la, lp, lf := c05Operand(l, "a", mode)
-				if mode == "doc" && lf == "" {
+				if (mode == "doc" && lf == "") || (c05IsMiss(mode) && l.Kind != "null") {
 					continue
 				}
 				prog := c05UsesFn(l) + "BEGIN { " + lp + "print " + v.Op + " " + la + " }"
 				doc := ""
-				if mode == "doc" {
+				if lf != "" {
 					prog, doc = "{ print "+v.Op+" "+la+" }", c05DocText(lf, "")
 				}
 				cs := c05MkCase(fmt.Sprintf("%s %s, operand as %s", v.Op, c05Lit(l, "a"), mode), prog, doc, "", exp)
@@ -940,7 +986,7 @@ func checkC05(c *Ctx) {
 				infra("C05: Go port disagrees with the specification at %s on %s", v.Op, c05Lit(l, "a"))
 			}
 			portChecked++
-			for _, mode := range []string{"var", "doc"} {
+			for _, mode := range append([]string{"var", "doc"}, c05MissModes...) {
 				cs, ok := c05IncCase(v.Op, v.Prefix, l, mode, exp, stored)
 				if ok {
 					submitOnce(cs)
@@ -951,7 +997,7 @@ func checkC05(c *Ctx) {
 				infra("C05: Go port disagrees with the specification at %s is %s", c05Lit(l, "a"), v.Name)
 			}
 			portChecked++
-			for _, mode := range []string{"lit", "var", "doc"} {
+			for _, mode := range append([]string{"lit", "var", "doc"}, c05MissModes...) {
 				cs, ok := c05IsCase(l, v.Name, mode, exp)
 				if ok {
 					submitOnce(cs)
@@ -968,6 +1014,51 @@ func checkC05(c *Ctx) {
 		infra("C05: TLC emitted no vectors")
 	}
 
+	// ---- (1b) one `~` / `!~` SITE evaluated several times in one run with
+	// different patterns (regex values and strings held in a parameter, in the
+	// elements of an array, in a variable reassigned between evaluations), an
+	// invalid pattern last: every evaluation must give its own cell's result
+	srng := rand.New(rand.NewSource(c.Seed ^ 0x51e))
+	var patIdx, badIdx []int
+	for i := 1; i <= len(siteVals); i++ {
+		v, ok := siteVals[i]
+		if !ok || (v.Kind != "str" && v.Kind != "regex") {
+			continue
+		}
+		if _, err := regexp.Compile(string(v.S)); err != nil {
+			badIdx = append(badIdx, i)
+		} else {
+			patIdx = append(patIdx, i)
+		}
+	}
+	if len(patIdx) < 8 || len(badIdx) < 2 || siteLeftMax == 0 {
+		infra("C05: pattern operands missing from the model's vectors")
+	}
+	for _, op := range []string{"~", "!~"} {
+		for li := 1; li <= siteLeftMax; li++ {
+			l := siteVals[li]
+			for _, variant := range []string{"param", "array", "var"} {
+				seq := []int{}
+				for _, k := range srng.Perm(len(patIdx))[:4+srng.Intn(4)] {
+					seq = append(seq, patIdx[k])
+				}
+				seq = append(seq, badIdx[srng.Intn(len(badIdx))], patIdx[0])
+				rs := make([]c05GV, len(seq))
+				outs := make([]c05Out, len(seq))
+				for k, ri := range seq {
+					o, ok := siteCells[fmt.Sprintf("%s %d %d", op, li, ri)]
+					if !ok {
+						infra("C05: no cell for %s %d %d", op, li, ri)
+					}
+					rs[k], outs[k] = siteVals[ri], o
+				}
+				cs := c05SiteCase(op, variant, []c05GV{l}, rs, outs)
+				count("repeated-site programs")
+				submitOnce(cs)
+			}
+		}
+	}
+
 	// ---- (2) seeded instantiation: operands of the same classes with random
 	// leaf values; the expectation is recomputed from the same table (the Go
 	// port validated above on every cell of the model)
@@ -977,8 +1068,32 @@ func checkC05(c *Ctx) {
 	}
 	rng := rand.New(rand.NewSource(c.Seed))
 	for i := 0; i < n; i++ {
-		fam := rng.Intn(20)
+		fam := rng.Intn(21)
 		switch {
+		case fam == 20: // one site, several (subject, pattern) pairs
+			op := []string{"~", "!~"}[rng.Intn(2)]
+			k := 2 + rng.Intn(4)
+			ls, rs, outs := make([]c05GV, k), make([]c05GV, k), make([]c05Out, k)
+			bad := false
+			for q := 0; q < k; q++ {
+				ls[q] = c05RandVal(rng, false)
+				for ls[q].Kind == "unset" || ls[q].Kind == "fn" {
+					ls[q] = c05RandVal(rng, false)
+				}
+				rs[q] = c05RandVal(rng, true)
+				for rs[q].Kind != "str" && rs[q].Kind != "regex" {
+					rs[q] = c05RandVal(rng, true)
+				}
+				bad = bad || (ls[q].Kind == "str" && !c05SafeStr(ls[q].S)) || !c05SafeStr(rs[q].S) || (rs[q].Kind == "regex" && bytes.ContainsAny(rs[q].S, "/ "))
+				outs[q] = c05Bin(op, ls[q], rs[q])
+			}
+			if bad {
+				continue
+			}
+			cs := c05SiteCase(op, "param2", ls, rs, outs)
+			cs.Desc, cs.Seed = "seeded: "+cs.Desc, true
+			count("seeded cases")
+			submitOnce(cs)
 		case fam < 15:
 			op := c05AllBin[rng.Intn(len(c05AllBin))]
 			isMatch := op == "~" || op == "!~"
@@ -995,6 +1110,9 @@ func checkC05(c *Ctx) {
 				continue
 			}
 			mode := []string{"lit", "var", "doc", "mark"}[rng.Intn(4)]
+			if (l.Kind == "null" || r.Kind == "null") && rng.Intn(2) == 0 {
+				mode = c05MissModes[rng.Intn(len(c05MissModes))]
+			}
 			prog, doc, marks, ok := c05BinProg(op, l, r, mode)
 			if !ok {
 				prog, doc, marks, _ = c05BinProg(op, l, r, "var")
@@ -1020,9 +1138,12 @@ func checkC05(c *Ctx) {
 				continue
 			}
 			mode := []string{"lit", "var", "doc"}[rng.Intn(3)]
+			if l.Kind == "null" && rng.Intn(2) == 0 {
+				mode = c05MissModes[rng.Intn(len(c05MissModes))]
+			}
 			la, lp, lf := c05Operand(l, "a", mode)
 			prog, doc := c05UsesFn(l)+"BEGIN { "+lp+"print "+op+" "+la+" }", ""
-			if mode == "doc" && lf != "" {
+			if lf != "" {
 				prog, doc = "{ print "+op+" "+la+" }", c05DocText(lf, "")
 			}
 			cs := c05MkCase(fmt.Sprintf("seeded: %s %s, operand as %s", op, c05Lit(l, "a"), mode), prog, doc, "", c05Un(op, l))
@@ -1040,7 +1161,11 @@ func checkC05(c *Ctx) {
 			if pv.Open || ps.Open {
 				continue
 			}
-			cs, ok := c05IncCase(op, prefix, l, []string{"var", "doc"}[rng.Intn(2)], pv, ps)
+			imode := []string{"var", "doc"}[rng.Intn(2)]
+			if l.Kind == "null" && rng.Intn(2) == 0 {
+				imode = c05MissModes[rng.Intn(len(c05MissModes))]
+			}
+			cs, ok := c05IncCase(op, prefix, l, imode, pv, ps)
 			if !ok {
 				cs, _ = c05IncCase(op, prefix, l, "var", pv, ps)
 			}
@@ -1073,7 +1198,8 @@ func checkC05(c *Ctx) {
 	c.Set("rule", "TLC enumerates every binary operator x every ordered pair of a 37-value universe (13 numbers incl. -0, 2^53, 2^70, 2^-20; 13 strings; "+
 		"both booleans, null, unset, [] [1] {} {a:1}, two regexes, a function), ~ and !~ additionally against 13 patterns as strings and regex literals, "+
 		"every unary operator, ++/-- prefix and postfix, `is` with every type name; each cell is replayed with the operands as literals, variables, "+
-		"document fields, one shared variable (diagonal) and behind marker functions; a case is non-trivial unless both operands are small positive integers; distinct by program + document")
+		"document fields, one shared variable (diagonal) and behind marker functions; a null operand additionally as a missing numeric member (index past the end of a document / variable array, absent numeric key of an object); "+
+		"per operator and left operand, one ~ / !~ site evaluated 6-9 times in one run with different patterns (parameter, array element, reassigned variable; strings and regex values; an invalid pattern last); a case is non-trivial unless both operands are small positive integers; distinct by program + document")
 	c.Set("checker_cmd", "tlc MC_Ops (INVARIANT Laws, Vec); replay through lang.EvalProgram in worker subprocesses")
 	c.Set("cells", counts)
 	c.Set("port_cells_checked_against_spec", portChecked)
@@ -1097,7 +1223,7 @@ func c05Describe(isErr bool, out string) string {
 
 func c05IncCase(op string, prefix bool, l c05GV, mode string, value, stored c05Out) (c05Case, bool) {
 	la, lp, lf := c05Operand(l, "a", mode)
-	if mode == "doc" && lf == "" {
+	if (mode == "doc" && lf == "") || (c05IsMiss(mode) && l.Kind != "null") {
 		return c05Case{}, false
 	}
 	expr := op + la
@@ -1105,7 +1231,7 @@ func c05IncCase(op string, prefix bool, l c05GV, mode string, value, stored c05O
 		expr = la + op
 	}
 	prog, doc := c05UsesFn(l)+"BEGIN { "+lp+"print "+expr+"; print "+la+" }", ""
-	if mode == "doc" {
+	if lf != "" {
 		prog, doc = "{ print "+expr+"; print "+la+" }", c05DocText(lf, "")
 	}
 	cs := c05Case{Desc: fmt.Sprintf("%s on %s as %s (prefix=%v): value, then the stored value", op, c05Lit(l, "a"), mode, prefix),
@@ -1116,14 +1242,65 @@ func c05IncCase(op string, prefix bool, l c05GV, mode string, value, stored c05O
 
 func c05IsCase(l c05GV, name, mode string, exp c05Out) (c05Case, bool) {
 	la, lp, lf := c05Operand(l, "a", mode)
-	if mode == "doc" && lf == "" {
+	if (mode == "doc" && lf == "") || (c05IsMiss(mode) && l.Kind != "null") {
 		return c05Case{}, false
 	}
 	prog, doc := c05UsesFn(l)+"BEGIN { "+lp+"print "+la+" is "+name+" }", ""
-	if mode == "doc" {
+	if lf != "" {
 		prog, doc = "{ print "+la+" is "+name+" }", c05DocText(lf, "")
 	}
 	cs := c05MkCase(fmt.Sprintf("%s is %s, operand as %s", c05Lit(l, "a"), name, mode), prog, doc, "", exp)
 	cs.NT = true
 	return cs, true
+}
+
+// c05SiteCase: one source-level `~` / `!~` expression evaluated once per
+// pattern of rs, in one run.  ls has one subject (a global) or one per pattern
+// (variant param2).  The run prints one line per evaluation and stops at the
+// first cell that is a runtime error.
+func c05SiteCase(op, variant string, ls, rs []c05GV, outs []c05Out) c05Case {
+	uses := append(append([]c05GV{}, ls...), rs...)
+	fn := c05UsesFn(uses...)
+	la, lp, _ := c05Operand(ls[0], "a", "var")
+	pats := make([]string, len(rs))
+	for i, r := range rs {
+		pats[i] = c05Lit(r, "p")
+	}
+	var prog string
+	switch variant {
+	case "param":
+		prog = fn + "function m(r) { return " + la + " " + op + " r } BEGIN { " + lp
+		for _, p := range pats {
+			prog += "print m(" + p + "); "
+		}
+		prog += "}"
+	case "param2":
+		prog = fn + "function m(s, r) { return s " + op + " r } BEGIN { "
+		for i, p := range pats {
+			prog += "print m(" + c05Lit(ls[i], "a") + ", " + p + "); "
+		}
+		prog += "}"
+	case "array":
+		prog = fn + "BEGIN { " + lp + "ps = [" + strings.Join(pats, ", ") + "]; for (p in ps) print " + la + " " + op + " p }"
+	case "var":
+		prog = fn + "BEGIN { " + lp + "for (i = 0; i < " + strconv.Itoa(len(pats)) + "; i++) { "
+		for i, p := range pats {
+			prog += "if (i == " + strconv.Itoa(i) + ") { r = " + p + " } "
+		}
+		prog += "print " + la + " " + op + " r } }"
+	default:
+		infra("C05: site variant %q", variant)
+	}
+	cs := c05Case{Desc: fmt.Sprintf("one %s site (%s), %d evaluations with different patterns", op, variant, len(rs)), Prog: prog, Key: prog, NT: true}
+	out := ""
+	for _, o := range outs {
+		if o.Err {
+			cs.Err = true
+			cs.WantE = out
+			return cs
+		}
+		out += c05Text(o.V) + "\n"
+	}
+	cs.Want = out
+	return cs
 }
